@@ -25,6 +25,7 @@ def run_property(pid: str, tier: str, root: str, overlay=None, quiet=False, writ
 def main(argv=None):
     ap = argparse.ArgumentParser()
     ap.add_argument("prop")
+    ap.add_argument("path", nargs="?")
     ap.add_argument("--tier", default=os.environ.get("VERIF_TIER", "quick"), choices=["quick", "thorough"])
     ap.add_argument("--root", default="/repo")
     a = ap.parse_args(argv)
@@ -33,6 +34,18 @@ def main(argv=None):
         if a.prop == "selftest":
             from . import selftest
             return selftest.main(a.root)
+        if a.prop == "replay":
+            import json
+            d = json.load(open(a.path))
+            print(json.dumps(d, indent=1)[:3000])
+            rep, _ = run_property(d["property"], "quick", a.root, quiet=True)
+            hit = [f for f in rep.findings if f.rule == d["rule"] and f.key == d["key"]]
+            if hit:
+                print(f"REPRODUCED on {a.root}: rule {d['rule']} still reports {d['key']}: {hit[0].what}")
+                print(f"VIOLATION property={d['property']} replay={a.path}")
+                return 1
+            print(f"not reproduced on {a.root}: rule {d['rule']} no longer reports {d['key']}")
+            return 0
         if a.prop not in PROPS:
             raise AnalysisError(f"unknown property {a.prop}")
         rep, tree = run_property(a.prop, a.tier, a.root)
